@@ -290,8 +290,9 @@ def content_rules(facts, rep):
             nd = nf = bad = nopar = 0
             for p_ in ps:
                 dec = [(i_, v_) for i_, (a_, v_) in enumerate(p_["decisions"]) if re.search(r"str>::ends_with\(|^str::ends_with\(|::is_dir\(", a_)]
-                if not dec or outcome(p_)[0] not in ("Ok",):
-                    continue
+                o0 = outcome(p_)
+                if not dec or not (o0[0] == "Ok" or (o0[0] == "value" and len(o0) > 1 and isinstance(o0[1], tuple) and any(x_[0] == "call" and x_[1].endswith("fs::create_dir_all") for x_ in walk(o0[1])))):
+                    continue            # (`return fs::create_dir_all(..).map_err(..)`: the creation's own result is the entry's result)
                 names = [e_[1] for e_ in p_["effects"]]
                 if dec[-1][1] == 1:
                     nd += 1
